@@ -1,7 +1,8 @@
 /-
 Helper lemmas for C08 (Props/C08.lean): order lemmas for the byte-wise string
 comparison, uniqueness of sorted permutations, permutation invariance of the
-small map folds, and the cache-independence of a compilation without imports.
+small map folds, and the invariance of Package.Init / Compiler.parse (which
+iterate the sorted aliases) under permutation of every import map.
 Core Lean only (List.Perm, List.mergeSort lemmas are in core).
 -/
 import MpcVerif.Model.Determinism
@@ -214,55 +215,147 @@ theorem setCopy_perm_invariant {υ : Type} (l₁ l₂ : List (Nat × υ)) (hp : 
     · simp [h2]; intro e; exact absurd e.symm hk
     · simp [h1, h2]
 
-theorem labelCalls_congr {ν : Type} [DecidableEq ν] : ∀ (calls : List ν) (acc : List (ν × Nat)) (i₁ i₂ : ν → Nat),
-    (∀ f, f ∈ calls → i₁ f = i₂ f) →
-    (calls.foldl (fun (a : List (ν × Nat) × (ν → Nat)) f =>
-      (a.1 ++ [(f, a.2 f)], fun g => if g = f then a.2 g + 1 else a.2 g)) (acc, i₁)).1 =
-    (calls.foldl (fun (a : List (ν × Nat) × (ν → Nat)) f =>
-      (a.1 ++ [(f, a.2 f)], fun g => if g = f then a.2 g + 1 else a.2 g)) (acc, i₂)).1
-  | [], _, _, _, _ => rfl
-  | c :: cs, acc, i₁, i₂, h => by
-    simp only [List.foldl_cons]
-    have hc : i₁ c = i₂ c := h c List.mem_cons_self
-    rw [hc]
-    apply labelCalls_congr cs
-    intro f hf
-    have := h f (List.mem_cons_of_mem _ hf)
-    by_cases e : f = c <;> simp [e, this, hc]
+/-- A total order given as a Boolean `≤`. -/
+structure IsOrder {ν : Type} (le : ν → ν → Bool) : Prop where
+  trans : ∀ a b c, le a b = true → le b c = true → le a c = true
+  total : ∀ a b, (le a b || le b a) = true
+  antisymm : ∀ a b, le a b = true → le b a = true → a = b
 
-theorem contains_filter_ne {ν : Type} [DecidableEq ν] (l : List ν) (m : ν) :
-    (l.filter (fun n => n ≠ m)).contains m = false := by
-  induction l with
-  | nil => rfl
-  | cons x xs ih =>
-    by_cases h : x = m
-    · simp [h]
-    · simp [h]
-      intro e; exact absurd e.symm h
-
-theorem compile_no_imports {ν : Type} [DecidableEq ν] (lib : List (Pkg ν)) (c₁ c₂ : Cache ν) (prog : Prog ν)
-    (himp : prog.main.imports = []) (hcalls : ∀ f, f ∈ prog.calls → f ∈ prog.mainFuncs) :
-    (compile lib c₁ prog).1 = (compile lib c₂ prog).1 := by
-  have hinit : ∀ c : Cache ν,
-      (initPkg ((prog.main :: lib.filter (fun p => p.name ≠ prog.main.name)).length + 1)
-        (prog.main :: lib.filter (fun p => p.name ≠ prog.main.name)) prog.main.name
-        { initialized := c.initialized.filter (fun n => n ≠ prog.main.name), blocks := [], anon := 0 }).blocks
-      = if prog.main.nvars = 0 then [] else [(prog.main.name, if prog.main.nanon = 0 then none else some 0)] := by
-    intro c
-    have hc := contains_filter_ne c.initialized prog.main.name
-    simp only [initPkg, getPkg, List.find?_cons, decide_true, himp, List.foldl_nil, hc]
+theorem insertBy_perm {α : Type} (le : α → α → Bool) (a : α) : ∀ l : List α, (insertBy le a l).Perm (a :: l)
+  | [] => List.Perm.refl _
+  | b :: bs => by
+    simp only [insertBy]
     split
-    · rename_i h; cases h
-    · split <;> simp
-  have hl : ∀ c : Cache ν, (labelCalls prog.calls (fun f => if prog.mainFuncs.contains f then 0 else c.instances f)).1
-      = (labelCalls prog.calls (fun _ => 0)).1 := by
-    intro c
-    unfold labelCalls
-    apply labelCalls_congr
-    intro f hf
-    have := hcalls f hf
-    simp [this]
-  simp only [compile]
-  rw [hinit c₁, hinit c₂, hl c₁, hl c₂]
+    · exact List.Perm.refl _
+    · exact ((insertBy_perm le a bs).cons b).trans (List.Perm.swap a b bs)
+
+theorem isort_perm {α : Type} (le : α → α → Bool) : ∀ l : List α, (isort le l).Perm l
+  | [] => List.Perm.refl _
+  | a :: as => (insertBy_perm le a (isort le as)).trans ((isort_perm le as).cons a)
+
+theorem insertBy_pairwise {α : Type} (le : α → α → Bool)
+    (htrans : ∀ a b c, le a b = true → le b c = true → le a c = true)
+    (htotal : ∀ a b, (le a b || le b a) = true) (a : α) :
+    ∀ l : List α, l.Pairwise (fun x y => le x y = true) → (insertBy le a l).Pairwise (fun x y => le x y = true)
+  | [], _ => by simp [insertBy]
+  | b :: bs, h => by
+    rw [List.pairwise_cons] at h
+    simp only [insertBy]
+    split
+    · rename_i hab
+      refine List.pairwise_cons.mpr ⟨?_, List.pairwise_cons.mpr h⟩
+      intro x hx
+      rcases List.mem_cons.mp hx with rfl | hx
+      · exact hab
+      · exact htrans _ _ _ hab (h.1 x hx)
+    · rename_i hab
+      have hba : le b a = true := by
+        have := htotal a b
+        simp only [Bool.or_eq_true] at this
+        rcases this with h1 | h1
+        · exact absurd h1 hab
+        · exact h1
+      refine List.pairwise_cons.mpr ⟨?_, insertBy_pairwise le htrans htotal a bs h.2⟩
+      intro x hx
+      rcases List.mem_cons.mp ((insertBy_perm le a bs).mem_iff.mp hx) with rfl | hx
+      · exact hba
+      · exact h.1 x hx
+
+theorem isort_pairwise {α : Type} (le : α → α → Bool)
+    (htrans : ∀ a b c, le a b = true → le b c = true → le a c = true)
+    (htotal : ∀ a b, (le a b || le b a) = true) :
+    ∀ l : List α, (isort le l).Pairwise (fun x y => le x y = true)
+  | [] => List.Pairwise.nil
+  | a :: as => insertBy_pairwise le htrans htotal a _ (isort_pairwise le htrans htotal as)
+
+theorem sortedImports_perm_invariant {ν : Type} (le : ν → ν → Bool) (h : IsOrder le) (l₁ l₂ : List ν)
+    (hp : l₁.Perm l₂) : sortedImports le l₁ = sortedImports le l₂ := by
+  unfold sortedImports
+  refine List.Perm.eq_of_pairwise (fun a b _ _ hab hba => h.antisymm a b hab hba)
+    (isort_pairwise le h.trans h.total l₁) (isort_pairwise le h.trans h.total l₂)
+    ((isort_perm le l₁).trans (hp.trans (isort_perm le l₂).symm))
+
+/-- Two libraries that describe the same packages, the import maps handed over
+in possibly different orders. -/
+inductive LibRel {ν : Type} : List (Pkg ν) → List (Pkg ν) → Prop
+  | nil : LibRel [] []
+  | cons {a b : Pkg ν} {l₁ l₂ : List (Pkg ν)} :
+      (a.name = b.name ∧ a.nvars = b.nvars ∧ a.nanon = b.nanon ∧ a.imports.Perm b.imports) →
+      LibRel l₁ l₂ → LibRel (a :: l₁) (b :: l₂)
+
+theorem getPkg_rel {ν : Type} [DecidableEq ν] {lib₁ lib₂ : List (Pkg ν)} (h : LibRel lib₁ lib₂) (p : ν) :
+    (getPkg lib₁ p = none ∧ getPkg lib₂ p = none) ∨
+    ∃ a b, getPkg lib₁ p = some a ∧ getPkg lib₂ p = some b ∧
+      a.name = b.name ∧ a.nvars = b.nvars ∧ a.nanon = b.nanon ∧ a.imports.Perm b.imports := by
+  induction h with
+  | nil => left; exact ⟨rfl, rfl⟩
+  | @cons a b l₁ l₂ hab _ ih =>
+    by_cases e : a.name = p
+    · right
+      refine ⟨a, b, ?_, ?_, hab⟩
+      · simp [getPkg, e]
+      · simp [getPkg, ← hab.1, e]
+    · have e2 : ¬ b.name = p := by rw [← hab.1]; exact e
+      simp only [getPkg, List.find?_cons, e, e2, decide_false] at ih ⊢
+      exact ih
+
+theorem foldl_congr_fun {α β : Type} (f g : β → α → β) (l : List α) (h : ∀ s q, f s q = g s q) (s : β) :
+    l.foldl f s = l.foldl g s := by
+  have : f = g := by funext s q; exact h s q
+  rw [this]
+
+theorem initPkg_lib_invariant {ν : Type} [DecidableEq ν] (le : ν → ν → Bool) (hle : IsOrder le)
+    {lib₁ lib₂ : List (Pkg ν)} (h : LibRel lib₁ lib₂) :
+    ∀ (fuel : Nat) (p : ν) (st : GenSt ν), initPkg le fuel lib₁ p st = initPkg le fuel lib₂ p st := by
+  intro fuel
+  induction fuel with
+  | zero => intro p st; rfl
+  | succ n ih =>
+    intro p st
+    simp only [initPkg]
+    split
+    · rfl
+    · rcases getPkg_rel h p with ⟨h1, h2⟩ | ⟨a, b, h1, h2, hn, hv, ha, hi⟩
+      · rw [h1, h2]
+      · rw [h1, h2]
+        simp only
+        rw [sortedImports_perm_invariant le hle a.imports b.imports hi]
+        rw [foldl_congr_fun _ _ _ (fun s q => ih q s)]
+        simp only [emitBlock, hv, ha]
+
+theorem bytesLe_isOrder : IsOrder bytesLe :=
+  ⟨bytesLe_trans, bytesLe_total, bytesLe_antisymm⟩
+
+theorem sortPairs_perm_invariant {α π : Type} (le : α → α → Bool) (h : IsOrder le) (l₁ l₂ : List (α × π))
+    (hp : l₁.Perm l₂) (hnd : (l₁.map Prod.fst).Nodup) :
+    isort (fun a b => le a.1 b.1) l₁ = isort (fun a b => le a.1 b.1) l₂ := by
+  have hs : ∀ l : List (α × π), (isort (fun a b => le a.1 b.1) l).Pairwise (fun a b => le a.1 b.1 = true) :=
+    fun l => isort_pairwise _ (fun a b c => h.trans a.1 b.1 c.1) (fun a b => h.total a.1 b.1) l
+  refine List.Perm.eq_of_pairwise ?_ (hs l₁) (hs l₂)
+    ((isort_perm _ l₁).trans (hp.trans (isort_perm _ l₂).symm))
+  intro a b ha hb hab hba
+  have ha' : a ∈ l₁ := (isort_perm _ l₁).mem_iff.mp ha
+  have hb' : b ∈ l₁ := hp.mem_iff.mpr ((isort_perm _ l₂).mem_iff.mp hb)
+  exact eq_of_key_eq Prod.fst l₁ hnd a b ha' hb' (h.antisymm _ _ hab hba)
+
+theorem parseImports_perm_invariant {α π : Type} [DecidableEq α] (le : α → α → Bool) (h : IsOrder le)
+    (files₁ files₂ : π → List (α × π))
+    (hf : ∀ p, (files₁ p).Perm (files₂ p) ∧ ((files₁ p).map Prod.fst).Nodup) :
+    ∀ (fuel : Nat) (i₁ i₂ : List (α × π)) (cache : List (α × π)), i₁.Perm i₂ → (i₁.map Prod.fst).Nodup →
+      parseImports le fuel files₁ i₁ cache = parseImports le fuel files₂ i₂ cache := by
+  intro fuel
+  induction fuel with
+  | zero => intros; rfl
+  | succ n ih =>
+    intro i₁ i₂ cache hp hnd
+    simp only [parseImports]
+    rw [sortPairs_perm_invariant le h i₁ i₂ hp hnd]
+    have : (fun (c : List (α × π)) (ap : α × π) =>
+              if c.any (fun e => e.1 = ap.1) then c else parseImports le n files₁ (files₁ ap.2) (c ++ [ap])) =
+           (fun (c : List (α × π)) (ap : α × π) =>
+              if c.any (fun e => e.1 = ap.1) then c else parseImports le n files₂ (files₂ ap.2) (c ++ [ap])) := by
+      funext c ap
+      rw [ih (files₁ ap.2) (files₂ ap.2) (c ++ [ap]) (hf ap.2).1 (hf ap.2).2]
+    rw [this]
 
 end Mpc.Det
